@@ -5,6 +5,7 @@ import json, os, re, sys
 rnd, final_log = sys.argv[1], sys.argv[2]
 ORIGIN = {
  "10": "round 10: written by an independent sub-agent that was given only the property text, one-sentence descriptions of the nine earlier changes to avoid, the request for two cooperating sites that each look fine alone, and a scratch worktree",
+ "13": "round 13: written by an independent sub-agent that was given only the property text, one-sentence descriptions of the twelve earlier changes to avoid, the request for an error path or a boundary between two features that are each tested alone, and a scratch worktree (/tmp/wt13/Cnn); first attempt and final result through bin/trymutant-private / bin/sweepseeded (harness stages and regenerated ties against a private worktree: the thorough tier was running against /repo)",
  "12": "round 12: written by an independent sub-agent that was given only the property text, one-sentence descriptions of the eleven earlier changes to avoid, the request for something reached through the public API beyond struct tags plus one ParseArgs call (programmatic construction and assignment of public fields, several operations on one parser, a cache that goes stale), and a scratch worktree (/tmp/wt12/Cnn)",
  "11": "round 11: written by an independent sub-agent that was given only the property text, one-sentence descriptions of the ten earlier changes to avoid, the request for an unusual input or declaration (boundary sizes, unusual bytes, unusual-but-legal types and tags, extreme positions) or two cooperating sites, and a scratch worktree (/tmp/wt11/Cnn)",
 }
@@ -14,6 +15,10 @@ for l in open(final_log):
     m = re.match(r"(s-C\d+-\d+) (C\d+) seed=(\d+) exit=(\d+) violations=(\d+) no-failing-input=(\d+)", l)
     if m:
         final[m.group(1)] = dict(exit=int(m.group(4)), violation_lines=int(m.group(5)), no_failing_input_found=int(m.group(6)))
+    m = re.match(r"(s-C\d+-\d+) (C\d+) seed=(\d+) (concrete|CORRESPONDENCE-ONLY|MISSED)", l)
+    if m:
+        k = m.group(4)
+        final[m.group(1)] = dict(exit=0 if k == "MISSED" else 1, violation_lines=0 if k == "MISSED" else (5 if k == "concrete" else 1), no_failing_input_found=1 if k == "CORRESPONDENCE-ONLY" else 0, by="bin/sweepseeded (harness stages, private worktree)")
 for d in sorted(os.listdir("seeded")):
     m = re.match(r"s-(C\d+)-" + rnd + "$", d)
     if not m:
